@@ -4,6 +4,8 @@ import (
 	"bytes"
 	"encoding/json"
 	"fmt"
+	"strings"
+	"time"
 
 	"github.com/corestario/kyber/share"
 	"github.com/corestario/kyber/sign/tbls"
@@ -135,7 +137,54 @@ func judgeKeyMaterial(c *Ctx, ce *Ceremony, prefix string, wit interface{}) bool
 	return ok
 }
 
+// c02SeveralRounds: the same nodes and machines complete several rounds (different thresholds; round
+// identifiers that are near-duplicates of each other: trailing/leading whitespace, case, a prefix); the
+// C02 invariant must hold for every one of them afterwards - nothing a later round stores may displace
+// what an earlier one holds.
+func c02SeveralRounds(c *Ctx) {
+	reps := c.Pick(3, 20)
+	Parallel(reps, 6, func(rep int) {
+		seed := c.Seed*191 + uint64(rep)
+		n := 3 + rep%2
+		w, err := world.NewWorld(world.Options{N: n, T: 2, Seed: seed})
+		if err != nil {
+			c.Inconclusive("several-rounds world: %v", err)
+			return
+		}
+		defer w.Close()
+		base := fmt.Sprintf("%064x", seed*0x9E3779B97F4A7C15)
+		ids := []string{base, base + " ", strings.ToUpper(base), " " + base, base[:40]}
+		ths := []int{2, 3, n, 2, 3}
+		var ces []*Ceremony
+		for k := 0; k < 3+rep%3 && k < len(ids); k++ {
+			m := world.SignMsg(w.Nodes[k%n], ids[k], EvInit, w.InitPayload(ths[k], now().Add(time.Duration(k)*time.Second)), "")
+			if err := w.Board.Send(m); err != nil {
+				c.Inconclusive("several-rounds world: %v", err)
+				return
+			}
+			if rep%2 == 0 {
+				w.Run(world.RandomPolicy, 8000) // one after the other; odd reps run them concurrently
+			}
+			ces = append(ces, &Ceremony{W: w, N: n, T: ths[k], Round: ids[k]})
+		}
+		w.Run(world.RandomPolicy, 12000)
+		for k, ce := range ces {
+			wit := map[string]interface{}{"family": "several rounds on the same machines", "n": n, "round_ids": ids[:len(ces)], "thresholds": ths[:len(ces)], "judged_round": k, "case_seed": seed}
+			c.Eval(1)
+			c.Distinct(fmt.Sprintf("several-rounds n%d rep%d round%d", n, rep, k))
+			if !ce.AllIn(StIdle) {
+				c.Violate("C02/honest-key-generation-stalls", fmt.Sprintf("round %d (%q) of several on the same machines ended %v", k, ids[k], ce.States()), wit)
+				continue
+			}
+			if judgeKeyMaterial(c, ce, "C02", wit) {
+				c.Add("rounds_judged_on_machines_holding_several", 1)
+			}
+		}
+	})
+}
+
 func checkC02(c *Ctx) {
+	defer c02SeveralRounds(c)
 	c.Rule = "full key generations for all (n,t), n<=5, under seeded random schedules (answer order per phase, poll splits, lagging nodes), judged by group arithmetic on public values + machine keyrings + prysm; plus the deviating-announcement family: one participant's key announcement rewritten between machine and node (different well-formed polynomial with the same constant term / no polynomial / different key), delivered first, in the middle or last. distinct = distinct (n,t,family,deviant,position) cases"
 	c.Assumptions = []string{"kyber group arithmetic for public-value checks", "prysm/blst as signature judge", "machines' keyrings read with the harness-known password"}
 	cases := ntCases(5)
@@ -207,7 +256,7 @@ func otherPoly(orig []byte) ([]byte, error) {
 }
 
 func runC02Deviant(c *Ctx, n, t int, family string, dev, pos int, seed uint64, wit map[string]interface{}) {
-	w, err := world.NewWorld(world.Options{N: n, T: t, Seed: seed})
+	w, err := world.NewWorld(world.Options{N: n, T: t, Seed: seed, OddNames: seed%3 == 1})
 	if err != nil {
 		c.Inconclusive("world: %v", err)
 		return
